@@ -165,6 +165,36 @@ def _run_one(args):
         shutil.rmtree(d, ignore_errors=True)
 
 
+def _run_seed(args):
+    """seeded change from an independent sub-agent (patch.diff applied with patch -p1 on the scratch copy)."""
+    prop, repo, sid, patch_path, base_viol = args
+    sys.path.insert(0, HERE)
+    import check  # noqa
+    import subprocess
+    tmp_root = '/dev/shm' if os.path.isdir('/dev/shm') else tempfile.gettempdir()
+    d = tempfile.mkdtemp(prefix='verif-seed-', dir=tmp_root)
+    try:
+        shutil.copytree(os.path.join(repo, 'torchtree'), os.path.join(d, 'torchtree'), ignore=shutil.ignore_patterns('__pycache__'))
+        r = subprocess.run(['patch', '-p1', '-s', '-f', '-d', d, '-i', patch_path], capture_output=True, text=True)
+        if r.returncode != 0:
+            return {'id': sid, 'status': 'skip', 'why': 'seeded patch does not apply to the current tree'}
+        buf = io.StringIO()
+        with contextlib.redirect_stdout(buf), contextlib.redirect_stderr(buf):
+            from sa.report import Report
+            rep = Report(prop, 'quick', d, out_dir=d)
+            crashed = None
+            try:
+                ctx = check.Context(d)
+                importlib.import_module(f"props.{prop.lower()}").run(ctx, rep)
+            except Exception as e:
+                crashed = f"{type(e).__name__}: {e}"
+        viol = sorted({(o.rule, o.key) for o in rep.obs if o.status == 'violated'} - {tuple(v) for v in base_viol})
+        ok = bool(viol) and crashed is None
+        return {'id': sid, 'status': 'ok' if ok else 'fail', 'benign': False, 'new_violations': viol[:4], 'crashed': crashed, 'seeded': True}
+    finally:
+        shutil.rmtree(d, ignore_errors=True)
+
+
 def run(prop: str, repo: str, jobs: int = 16, verbose=True) -> int:
     try:
         corpus_mod = importlib.import_module(f"selftest.{prop.lower()}")
@@ -184,8 +214,18 @@ def run(prop: str, repo: str, jobs: int = 16, verbose=True) -> int:
         importlib.import_module(f"props.{prop.lower()}").run(ctx, rep)
     base = [[o.rule, o.key] for o in rep.obs if o.status == 'violated']
     tasks = [(prop, repo, m.__dict__, base) for m in corpus]
-    with ProcessPoolExecutor(max_workers=min(jobs, max(1, len(tasks)))) as ex:
-        results = list(ex.map(_run_one, tasks))
+    seeds = []
+    sdir = os.path.join(HERE, 'seeded')
+    if os.path.isdir(sdir):
+        for sid in sorted(os.listdir(sdir)):
+            mp = os.path.join(sdir, sid, 'meta.json')
+            pp = os.path.join(sdir, sid, 'patch.diff')
+            if os.path.exists(mp) and os.path.exists(pp):
+                meta = json.load(open(mp))
+                if meta.get('property') == prop and meta.get('detected'):
+                    seeds.append((prop, repo, sid, pp, base))
+    with ProcessPoolExecutor(max_workers=min(jobs, max(1, len(tasks) + len(seeds)))) as ex:
+        results = list(ex.map(_run_one, tasks)) + list(ex.map(_run_seed, seeds))
     fails = [r for r in results if r['status'] == 'fail']
     skips = [r for r in results if r['status'] == 'skip']
     oks = [r for r in results if r['status'] == 'ok']
